@@ -2,6 +2,7 @@ import GomlVerif.Model.Sem
 import GomlVerif.Driver.DecSyntax
 import GomlVerif.Model.GoSem
 import GomlVerif.Driver.DecGo
+import GomlVerif.Driver.InherentNames
 /-! `gomlmodel sem`: run a dumped IR program under `Sem`; prints status and escaped stdout -/
 namespace Goml.Driver.SemRun
 open Goml Goml.Sem
@@ -25,7 +26,8 @@ def runLine (fuel : Nat) (l : String) (capPolicy : Nat := 0) (eager : Bool := tr
     | _ =>
     match decProg sx with
     | some P =>
-      let o := run fuel P (eager := eager)
+      -- call-site names of inherent methods of generic impls are mapped to their definition (Core only; a no-op later)
+      let o := run fuel (resolveInherent P) (eager := eager)
       s!"{id}\t{o.status}\t{escOut o.out}\t{" ".intercalate o.externs}"
     | none => s!"{id}\tdecode-error\t\t"
   | none => s!"{id}\tparse-error\t\t"
